@@ -26,4 +26,7 @@ def run(tier, seed):
     kani.record(rep, "serial64", res, hs, KANI)
     res2 = kani.run("ed25519-dalek", "serial64", list(LEGACY), features=["hazmat", "digest", "zeroize", "legacy_compatibility"], no_default=True, stubbing=True, timeout_s=600, jobs=2)
     kani.record(rep, "serial64+legacy_compatibility", res2, list(LEGACY), LEGACY)
+    # verify / verify_strict as whole runs in the exact group model with SHA-512 uninterpreted (independent second decision): checks/c08s.py
+    from checks import c08s
+    for t in c08s.verify_harnesses(rep, tier): t()
     return rep
